@@ -31,6 +31,7 @@ EX = nd("{urn:x}foo", [["k", "v"], ["{urn:x}j", "a b"]], " ", [
     nd("{urn:d}a", [], "  ", [], " mixed ", NSX), nd("b", [], None, [], "tail", NSX), nd("{urn:x}foo", [], "", [], "\n", NSX)], None, NSX)
 W_PREFIXED = nd("{urn:x}foo", [["k", "p:bar"]], None, [], None, [["p", "urn:x"]])
 W_NIL = nd("foo", [[L.XSI_NIL, "true"]], None, [], None, [])
+W_NIL_CONTENT = nd("foo", [["k", "v"], [L.XSI_NIL, "false"]], "x", [nd("c", [[L.XSI_NIL, "true"]], None, [], "t", [])], None, [])
 TYPED = nd("{urn:a}foo", [[L.XSI_TYPE, "xs:string"], ["k", "v"]], "s", [], "tail")
 TYPED_INT = nd("{urn:a}foo", [[L.XSI_TYPE, "xs:int"]], "5", [], None)
 QN_LOCAL = nd("y", [[L.XSI_TYPE, "xs:QName"]], "w:foo", [], None, L.NSMAP + [["w", "urn:inner"]])
@@ -52,7 +53,7 @@ def main():
     rng = random.Random(0)
     for name, kind, pre, trees in [("ex-list", "list", None, [EX, EX]), ("ex-single", "single", "none", [EX, EX, EX]),
                                    ("ex-mixed", "mixed", {"str": "lead"}, [EX]), ("prefixed", "list", None, [W_PREFIXED]),
-                                   ("nil", "list", None, [W_NIL])]:
+                                   ("nil", "list", None, [W_NIL]), ("nil-content", "single", None, [W_NIL_CONTENT, W_NIL])]:
         a = P.anyrt_case(rng, kind, "##any", False, pre, trees)
         cases.append((f"anyrt-{name}", "c11.anyrt", a))
     for name, kind, forest in [("typed-attrs-tail", "mixed", [TYPED]), ("typed-int", "list", [TYPED_INT]),
